@@ -23,12 +23,13 @@ import numpy as np
 from runner import Infra, TieBroken
 
 ID = "C18"
-LEAN_MODULES = ["PyYetiVerif.Props.C18", "PyYetiVerif.Audit.C18"]
+LEAN_MODULES = ["PyYetiVerif.Props.C18", "PyYetiVerif.Props.C18Up", "PyYetiVerif.Props.C18Idx", "PyYetiVerif.Audit.C18"]
 AUDIT_FILE = "PyYetiVerif/Audit/C18.lean"
 THEOREMS = [
     "PyYetiVerif.C18." + n
     for n in (
-        "base_sets_disjoint superset_is_union superset_is_union_bitwise user_sets_separate inSet_subword table_partition mksetpv_refuses_iff mksetpv_spec mksetpv_named expanddof_digits expanddof2_spec lookup_sound lookup_complete mkdofpv_strict_iff mkdofpv_spec mkdofpv_positions mkdofpv_set mat_intersect_spec find_subseq_spec list_intersect_spec flippv_spec index2bool_spec normIndex_spec find_vals_spec find_rows_spec find_unique_spec find_duplicates_spec index2slice_cases index2slice_spec merge_lists_spec merge_lists_inserts mkusetmask_plus mksetpv_plus make_uset_sets make_uset_accepts make_uset_sets_partial make_uset_split_rows make_uset_ids make_uset_coords_partial upasetpv_spec scatter_spec upqsetpv_length upqsetpv_one_upstream qupOwn_spec"
+        "base_sets_disjoint superset_is_union superset_is_union_bitwise user_sets_separate inSet_subword table_partition mksetpv_refuses_iff mksetpv_spec mksetpv_named expanddof_digits expanddof2_spec lookup_sound lookup_complete mkdofpv_strict_iff mkdofpv_spec mkdofpv_positions mkdofpv_set mat_intersect_spec find_subseq_spec list_intersect_spec flippv_spec index2bool_spec normIndex_spec find_vals_spec find_rows_spec find_unique_spec find_duplicates_spec index2slice_cases index2slice_spec merge_lists_spec merge_lists_inserts mkusetmask_plus mksetpv_plus make_uset_sets make_uset_accepts make_uset_sets_partial make_uset_split_rows make_uset_ids make_uset_coords_partial upasetpv_spec scatter_spec upqsetpv_length upqsetpv_one_upstream qupOwn_spec "
+        "upqsetpv_fuel_stable upqsetpv_fuel_suffices upqsetpv_cycle_diverges cyclic_not_acyclic QConn_iff upqsetpv_spec canFlag_of_flagged separate_of_check upqIdx_eq_upasetpv upasetpv_perm mat_intersect_order mat_intersect_keep1 mat_intersect_keep2 mat_intersect_keep0 mat_intersect_keep_other findse_spec findse_find? nodeIds_spec nodeIds_make"
     ).split()
 ]
 TRUSTED = [
@@ -586,6 +587,8 @@ def _nas_streams(ctx, cs):
             ctx.count("upqsetpv:maps-reordered")
         if any(flagged(c) and info["parent"][c] != 0 for c in info["reordered"]):
             ctx.count("upqsetpv:maps-reordered-above-residual")
+        if info["shared"]:
+            ctx.count("upqsetpv:shared-boundary")
         if info["style"] == "noq":
             ctx.count("upqsetpv:spoint-rule")
         if any(info["skipped"].values()):
@@ -599,7 +602,9 @@ def _nas_streams(ctx, cs):
         sl = np.asarray(nas["selist"]).tolist()
         both(nas, "-real", sorted({r_[0] for r_ in sl}), sorted({r_[1] for r_ in sl} | {r_[0] for r_ in sl}))
         ctx.count("nas-real-dictionary")
-        cs.add("upqsetpv-separate-real", "sep | %s" % N.serialize(nas), None, {"file": name}, nontrivial=True,
+        # the hypothesis of upqsetpv_spec holds on the nas2cam files of pyYeti's own tests (two upstream SEs of the
+        # csuper / extseout models are attached to the same boundary grids: those places cannot carry a flag)
+        cs.add("upqsetpv-separate-real", "sep | %s" % N.serialize(nas), "ok 1", {"file": name}, nontrivial=True,
                branch="upqsetpv:separate-real")
     ctx.extra["upqsetpv_spec_hypothesis"] = (
         "Separate (driver op `sep`) holds on all %d consistent generated dictionaries of this run" % nsep)
@@ -964,9 +969,8 @@ def correspondence(ctx):
     for (stream, line, impl, inp, nontriv, branch), got in zip(cs.items, rep):
         ctx.case(line, nontrivial=nontriv, branch=branch)
         ctx.count("stream:" + stream)
-        if impl is None:  # no implementation counterpart: the model's answer is recorded in the evidence
+        if stream == "upqsetpv-separate-real":
             ctx.extra.setdefault("separate_on_real_files", []).append([inp.get("file"), " ".join(got.split())])
-            continue
         want = " ".join(impl.split())
         got_c = " ".join(got.split())
         if stream == "make_uset-xyz" and got_c == "type-error" and want == "value-error":
@@ -1006,7 +1010,7 @@ def correspondence(ctx):
         "upqsetpv:key-error", "nas-real-dictionary",
         "upqsetpv:separate", "upqsetpv:separate-real", "upqsetpv:depth-3", "upqsetpv:depth-4",
         "upqsetpv:several-upstream", "upqsetpv:several-upstream-above-residual", "upqsetpv:maps-reordered",
-        "upqsetpv:maps-reordered-above-residual", "upqsetpv:recursion-error",
+        "upqsetpv:maps-reordered-above-residual", "upqsetpv:recursion-error", "upqsetpv:shared-boundary",
         "mat_intersect-order:unsorted-values", "mat_intersect-order:keep0", "mat_intersect-order:keep1",
         "mat_intersect-order:keep2", "mat_intersect-order:keep-other",
     ] + (["findse:absent", "findse:once", "findse:repeated"] if ctx.extra["private_helpers_present"]["_findse"] else [])
